@@ -113,10 +113,12 @@ def step (line : String) : String :=
       let path := if hsOk then path else (path.dropEnd 5).toString
       let tls := path.endsWith "+tls"
       let path := if tls then (path.dropEnd 4).toString else path
+      let limit := !(path.endsWith "~nolimit")
+      let path := if limit then path else (path.dropEnd 8).toString
       let p? : Option Path := if path == "dialer" then some .dialer else if path == "transport" then some .transport else none
       match p?, (commaList envs).mapM parseEnv with
       | some p, some es =>
-        let c : Cfg := { path := p, sasl := sasl == "1", addrOk := addrOk }
+        let c : Cfg := { path := p, sasl := sasl == "1", addrOk := addrOk, limit := limit }
         let model := match runTls c tls hsOk es with
           | some s => showSocket tls s
           | none => match firstRejected c (startTls c tls hsOk) es 0 with
